@@ -188,6 +188,8 @@ theorem forNode {Y : String → Prop} {m : EvalM RVal} (env : EnvId) (ids : List
       | .ok v s2 => .ok v (restoreVars env (hiddenVars s1 env ids) s2)
       | .err v msg p t s2 =>
           .err v msg p t (restoreVars env (hiddenVars s1 env ids) (ids.foldl (fun s x => s.remove env x) s2))
+      | .fail (.syn se) s2 =>
+          .fail (.syn se) (restoreVars env (hiddenVars s1 env ids) (ids.foldl (fun s x => s.remove env x) s2))
       | other => other) := by
   refine ⟨fun s1 hs1 => ?_⟩
   have h := (hm s1).run s1 (Mono.refl s1)
@@ -196,7 +198,18 @@ theorem forNode {Y : String → Prop} {m : EvalM RVal} (env : EnvId) (ids : List
   | ok a s2 => exact fun h => hs1.trans (Mono.restore env ids h hY)
   | err v msg p t s2 =>
     exact fun h => hs1.trans (Mono.restore env ids (Mono.removeAll env ids hrm s2 h) hY)
-  | fail f s2 => exact fun h => ⟨fun hf => hs1.trans (h.1 hf), hs1.weaken_all.trans h.2⟩
+  | fail f s2 =>
+    cases f with
+    | syn se =>
+      intro h
+      -- the loop identifiers are removed (exception set `X ∪ ids`), then the hidden bindings are put back
+      have h1 : Mono e (fun y => X y ∨ (env = e ∧ y ∈ ids)) s1 s2 := (h.1 trivial).weaken (fun _ _ hx => Or.inl hx)
+      have h2 := Mono.removeAll env ids (fun he x hx => Or.inr (Or.inr ⟨he, hx⟩)) s2 h1
+      have h3 : Mono e X s1 _ := Mono.restore env ids h2 (fun _ _ hy => hy)
+      exact ⟨fun _ => hs1.trans h3, hs1.weaken_all.trans h3.weaken_all⟩
+    | oof => exact fun h => ⟨fun hf => hs1.trans (h.1 hf), hs1.weaken_all.trans h.2⟩
+    | unsupported w => exact fun h => ⟨fun hf => hs1.trans (h.1 hf), hs1.weaken_all.trans h.2⟩
+    | host k => exact fun h => ⟨fun hf => hs1.trans (h.1 hf), hs1.weaken_all.trans h.2⟩
 
 end KTr
 
